@@ -1030,7 +1030,7 @@ impl<'a> Session<'a> {
                 self.mark_script_change();
                 Res::Ok
             }
-            Op::InScriptThenRegular { utxo, wit } => {
+            Op::InScriptThenRegular { utxo, wit, checked } => {
                 need!(self.utxo_ok(*utxo) && self.wit_ok(wit));
                 let ut = &self.w.utxos[*utxo];
                 if !matches!(ut.addr.pay_cred(), Some(Cred::Key(_))) || ut.script_ref.is_some() {
@@ -1044,7 +1044,21 @@ impl<'a> Session<'a> {
                 let val = self.w.value(ut.coin, &ut.assets);
                 let full = self.utxo_as_handed_over(*utxo, idx);
                 let outpoint = self.w.outpoint(*utxo);
-                self.inb.add_plutus_script_input(&pw, &input, &val);
+                if *checked {
+                    // the entry point that looks at the address: a key-owned UTxO has to be refused, and only then
+                    // does the wallet fall back to the regular entry point
+                    let inb = &mut self.inb;
+                    if guard(|| inb.add_plutus_script_utxo(&full, &pw)).is_ok() {
+                        // accepted: the wallet believes it has added a script input with this redeemer
+                        self.h.attaches.push(Attach { op: idx, red: wit.red, purpose: Purpose::Spend(outpoint.0, outpoint.1), script: wit.script, live: true });
+                        self.tx.set_inputs(&self.inb);
+                        self.mark_value_change();
+                        self.mark_script_change();
+                        return Res::Ok;
+                    }
+                } else {
+                    self.inb.add_plutus_script_input(&pw, &input, &val);
+                }
                 // the mistaken attachment is replaced at once: it is never live
                 self.h.attaches.push(Attach { op: idx, red: wit.red, purpose: Purpose::Spend(outpoint.0, outpoint.1), script: wit.script, live: false });
                 let inb = &mut self.inb;
